@@ -1,5 +1,6 @@
 """C01 — the feature table stays aligned with the observations under any operation history
-(tracklib/core/track.py analytical-feature methods, __setitem__, operate; operators.py; utils.addListToAF).
+(tracklib/core/track.py analytical-feature methods, __setitem__, operate; operators.py; utils.addListToAF;
+the helpers of algo/cinematics.py and algo/segmentation.py that create features; tables carried by copy / extract / slice / +).
 
 A case is a history of API calls on a fresh track of n observations. After EVERY call the harness
 observes the listed names, every column (read through the name), len(obs.features) of every
@@ -279,7 +280,10 @@ def shift_col(a, k):
     n = len(a)
     if k != k or math.isinf(k):
         raise Exc()
-    return [a[int((i - k) % n)] for i in range(n)]
+    idx = [int((i - k) % n) for i in range(n)]
+    if any(j >= n for j in idx):
+        raise Exc()                        # (i - k) % n rounds up to n for a tiny negative k: no such observation
+    return [a[j] for j in idx]
 
 
 def fn_void(name, a):
@@ -308,12 +312,15 @@ def fn_void(name, a):
 
 def fn_agg(name, a):
     v = [x for x in a if x == x]
+    tot = 0.0
+    for x in v:                            # plain left-to-right sum (Python's sum() compensates)
+        tot += x
     if name == "SUM":
-        return float(sum(v))
+        return tot
     if name == "AVG":
         if not v:
             raise Exc()
-        return sum(v) / len(v)
+        return tot / len(v)
     if not finite(v) or len(v) != len(a) or not a:
         raise Exc()                        # NaN / infinities / empty: the sentinel conventions of the library, out of scope
     if name == "MIN":
@@ -769,40 +776,64 @@ class P(Prop):
         ("TracklibVerif.Props.C01", "TV.C01.binaryVoid_read_back", "when ADDER/SUBSTRACTER/MULTIPLIER returns temp, the output feature reads exactly temp (created or overwritten, even if it is also an input)"),
         ("TracklibVerif.Props.C01", "TV.C01.scalarVoid_read_back", "the same for SCALAR_ADDER/SCALAR_SUBSTRACTER/SCALAR_REV_SUBSTRACTER/SCALAR_MULTIPLIER"),
         ("TracklibVerif.Props.C01", "TV.C01.unaryVoid_read_back", "the same for INTEGRATOR/DIFFERENTIATOR"),
-        ("TracklibVerif.Props.C01", "TV.C01.no_temporaries", "after operate(str) no listed name starts with '#', whether evaluation returned or raised"),
+        ("TracklibVerif.Props.C01", "TV.C01.no_temporaries", "after operate(str) no listed name starts with '#', whether evaluation returned or raised (an operator failing mid-way included) - provided the empty string is neither a listed name nor a token (af[0] raises on it: finding empty-feature-name)"),
+        ("TracklibVerif.Props.C01", "TV.C01.evaluate_no_new_name", "a name that is not listed, not a token of the expression and not a '#' name is not listed after the evaluation either"),
+        ("TracklibVerif.Props.C01", "TV.C01.applyVoid_read_back", "when an APPLY-based operator (RECTIFIER SQRT DIODE SIGN EXP COS SIN TAN INVERSER ..., any cell function, which may raise mid-way) returns temp, the output feature reads exactly temp"),
+        ("TracklibVerif.Props.C01", "TV.C01.scalarKind_read_back", "the same for SCALAR_DIVIDER, SCALAR_REV_DIVIDER (two operators in a row), SHIFT_CIRCULAR(_REV) and the twelve plain scalar operators"),
+        ("TracklibVerif.Props.C01", "TV.C01.agg_keeps_table", "the value-returning aggregates SUM AVG MIN MAX ARGMIN ARGMAX leave the whole table as it was, returning or raising"),
+        ("TracklibVerif.Props.C01", "TV.C01.cell_read_agrees", "every read path returns the same values: for ANY name (feature called X, E, N, the empty string ..., coordinate, t, idx) getObsAnalyticalFeature(m, i) is the i-th element of getAnalyticalFeature(m) and changes nothing"),
+        ("TracklibVerif.Props.C01", "TV.C01.carried_table_aligned", "a track handed a table with distinct names and full columns (copy, extract, slice, +) is aligned and carries exactly that table: all theorems apply to histories starting from it"),
     ]
     partial = []
     open_statements = [
-        "values: WHICH numbers an operator or an expression computes (a+b, running sums, NaN propagation, precedence) is not stated here - "
-        "the theorems say where they are written and that nothing else moves; expression values are property C02's; here they are covered by the "
-        "correspondence (model at Float = same IEEE operations) and by the oracle's direct recomputation",
+        "values: WHICH numbers an operator or an expression computes (a+b, a%b, running sums, NaN propagation, precedence) is not stated here - "
+        "the theorems hold for every interpretation of the arithmetic (Ops: any + - * / ** % < cell functions, aggregates, any exception raised mid-way) and say "
+        "where results are written and that nothing else moves; expression values are property C02's; here they are covered by the correspondence "
+        "(model at Float with CPython's float_rem / float_pow / math functions) and by the oracle's direct recomputation",
         "read-back of the result of an '=' expression under its left-hand side is proved only through the refinement (the specification table runs the "
         "same stack machine), not as a closed formula",
-        "list initialisers shorter than the track (Python raises IndexError mid-way and leaves a misaligned table) are outside OpOK: "
-        "mirrored by the model, compared in the 'malformed' stream, not covered by the theorems or the oracle",
-        "assignment to 't', 'timestamp' as an operand, operators / ^ @ & $ < > % ! in expressions, and tables that are already misaligned are outside the model",
+        "a list initialiser shorter than the track with a NEW name (create, track[name] = list) is outside OpOK: Python raises IndexError after having "
+        "registered the name and extended the first observations, and leaves a misaligned table - this contradicts the property (finding "
+        "short-list-initialiser); mirrored by the model, compared in the 'malformed' stream, reported by the oracle once the class is listed",
+        "assignment to 't' (timestamps replaced by floats), 'timestamp' as an operand, the FILTER operator '!' between two features, D2 and the order-statistic "
+        "functions in expressions, a complex result of ** , and tables that are already misaligned are outside the model (the driver answers "
+        "'unsupported' and the rest of that history is not compared)",
+        "the list forms of operate (lists of input / output names) are not modelled: for the non-void and scalar families they raise TypeError "
+        "(`range(output)` on a list) before touching the table",
+        "sharing of Obs objects between a track and the tracks derived from it by extract / slice / + is outside the model (one track = one table): "
+        "the oracle observes it (finding derived-track-shares-observations)",
     ]
-    # Python leaves a misaligned table when a list initialiser is shorter than the track. DESIGN.md section 5 C01 declares
-    # this out of the property's domain; set to True to have the oracle report it (class "short-list-initialiser").
-    SHORT_LIST_IS_FINDING = False
     modelled = ("Track.createAnalyticalFeature / updateAnalyticalFeature / removeAnalyticalFeature / getAnalyticalFeature / "
                 "getObsAnalyticalFeature / setObsAnalyticalFeature / hasAnalyticalFeature / addAnalyticalFeature / __setitem__ / "
-                "setX|Y|ZFromAnalyticalFeature / operate (operator objects and str) / __applyOperation (= + - *) / __evaluateRPN / "
+                "setX|Y|ZFromAnalyticalFeature / operate (operator objects and str, with the purge incl. af[0] on the empty name) / "
+                "__applyOperation (= + - * / ^ % < > & $ @ ; '!' only its KeyError forms) / __evaluateRPN / "
                 "__evaluate (on the RPN token list) of core/track.py; utils.addListToAF; Integrator, Differentiator, Adder, "
-                "Substracter, Multiplier, ScalarAdder, ScalarSubstracter, ScalarRevSubstracter, ScalarMuliplier, Sum, Reverser of core/operators.py; "
-                "table effect only (values opaque) of Convolution, Filter_FFT, Apply / Square / Inverter, ShiftCircular and of the non-void "
+                "Substracter, Multiplier, Divider, Power, Modulo, Above, Below, ScalarAdder, ScalarSubstracter, ScalarRevSubstracter, ScalarMuliplier, "
+                "ScalarPower, ScalarRevPower, ScalarModulo, ScalarRevModulo, ScalarAbove, ScalarBelow, ScalarRevAbove, ScalarRevBelow, ScalarDivider, "
+                "ScalarRevDivider, Inverser, ShiftCircular, ShiftCircularRev, Apply and Rectifier / Sqrt / Diode / Sign / Exp / Cos / Sin / Tan, Log, "
+                "Sum, Averager, Min, Max, Argmin, Argmax, Reverser of core/operators.py; cinematics.computeAbsCurv, estimate_speed "
+                "(analytics.ds, speed), segmentation.segmentation (one feature, one threshold); the table a track receives from copy / extract / slice / +; "
+                "table effect only (values opaque) of Convolution, Filter_FFT, Square, Inverter, ShiftCircular (object form) and of the non-void "
                 "Min, Argmax, Zeros, Median, Aggregate, Equal")
-    trusted = ["operators with opaque values (CONVOLUTION, FILTER_FFT - numpy results -, SQUARE, INVERTER, SHIFT_CIRCULAR): the model is handed the list the "
+    trusted = ["operators with opaque values (CONVOLUTION, FILTER_FFT - numpy results -, SQUARE, INVERTER, SHIFT_CIRCULAR object form): the model is handed the list the "
                "implementation returned and models where it is written; the oracle recomputes the values from the operator's definition (direct sums, no FFT) "
-               "and checks that every stored cell is one real scalar",
+               "and checks that every stored cell is one number",
                "the expression parser (string preprocessing + makeRPN) is property C02's: the model receives the RPN token list computed by "
-               "the harness's own recursive-descent parser, so a parser defect shows up here as a disagreement",
+               "the harness's own recursive-descent parser (operators other than + - * are always written parenthesised, so no precedence convention "
+               "is involved), so a parser defect shows up here as a disagreement",
                "addAnalyticalFeature: the model writes through the name at every index (Python hoists the index lookup); the algorithms used are read-only",
-               "out of the model (never generated): 'timestamp' as an operand, assignment to 't', operators other than = + - * in expressions, empty names"]
-    rule = ("histories of API calls over the names a b c #0 #u (+ reserved and unknown names) on tracks of 1..4 observations, values small integers (as floats) and NaN; "
-            "every history over a 33-call alphabet to depth 3 (thorough: 4) on a 2-observation track, random histories to depth 40; "
-            "operator objects of every family (unary / binary / scalar void incl. numpy-valued results, bracket-writing REVERSER, non-void aggregates), "
-            "expressions incl. self-assignment (n=n, n=n+0, x=x) and a number assigned to a coordinate (y=4, x=1+2); a call that raises although all its operands exist and it is well formed is a failure; "
+               "Float instances of the arithmetic in the driver (Drv/C01.lean: exact fmod by integer arithmetic, CPython's float_rem / float_pow rules, libm functions)",
+               "never generated: 'timestamp' as an operand, assignment to 't', '!' , NaN thresholds of segmentation, CONVOLUTION / FILTER_FFT in the same history as "
+               "the operators whose Python arithmetic raises (numpy scalars stored by the former never raise)"]
+    rule = ("histories of API calls on tracks of 0..5 observations, values small integers (as floats) and NaN; after EVERY call: listed names, every column, every "
+            "read path (column, per observation in four forms, list forms, bracket), len(obs.features), X/Y/Z/T, outcome, returned value; after the last call each feature "
+            "also read through an operator and through an expression. Streams: every history over a 33-call alphabet to depth 3 (thorough: 4) on a 2-observation track; "
+            "random histories to depth 40 over a b c #0 #u (+ reserved and unknown names); 'names': pools of 3-5 names drawn from 33 special ones (coordinate aliases X Y Z E N U, "
+            "capitals and near-misses of the reserved names, prefixes, digits, '#', non-ASCII, blanks, operator and separator characters, built-in names ds abs_curv speed, the "
+            "empty string) used as user features through every write path; 'rich': operator objects of every family (binary / scalar / unary void incl. those whose arithmetic "
+            "raises mid-way, value-returning aggregates, computeAbsCurv, estimate_speed, segmentation) and expressions with / ^ % < > >> << and function calls; 'carry': a track built "
+            "by copy / extract / slice / + from a track with features, then a history on it, the source tracks observed before and after; 'malformed': short list initialiser last; "
+            "empty track. A call that raises although all its operands exist and it is well formed is a failure; "
             "non-trivial = the history deletes (remove, '#DELETE' or re-assignment by an expression) a column that is not the last one while other features are listed")
 
     # ---------------------------------------------------------------- setup
